@@ -11,7 +11,7 @@ for p in sorted(glob.glob(os.path.join(os.path.dirname(__file__), "..", "seeded"
     name = os.path.basename(os.path.dirname(p))
     fr = m.get("first_run", {})
     own = {0: "missed", 1: "reported", 2: "exit 2"}.get(fr.get("own_exit"), str(fr.get("own_exit")))
-    others = ",".join(sorted(k for k, v in (fr.get("others") or {}).items() if v == 1 or (isinstance(v, dict) and v.get("exit") == 1))) or "–"
+    others = ",".join(sorted(k for k, v in (fr.get("others") or {}).items() if v == 1 or isinstance(v, list) or (isinstance(v, dict) and v.get("exit") == 1))) or "–"
     if m.get("detected_by_own_check"):
         cb = m.get("caught_by")
         if isinstance(cb, dict):
